@@ -135,58 +135,110 @@ func (v *Version) Compare(other *Version) int {
 // This implements RPM's version comparison algorithm which alternates between
 // comparing non-numeric and numeric segments
 func compareRPMVersionString(a, b string) int {
+	// Port of rpmvercmp (rpmio/rpmvercmp.c, rpm >= 4.15).
+	if a == b {
+		return 0
+	}
+
+	isDigit := func(c byte) bool { return c >= '0' && c <= '9' }
+	isAlpha := func(c byte) bool { return (c >= 'a' && c <= 'z') || (c >= 'A' && c <= 'Z') }
+	at := func(s string, k int, c byte) bool { return k < len(s) && s[k] == c }
+
 	i, j := 0, 0
-
 	for i < len(a) || j < len(b) {
-		// Skip separators (. + - ~ ^)
-		for i < len(a) && isSeparator(rune(a[i])) {
+		// Skip everything that is not alphanumeric, '~' or '^'
+		for i < len(a) && !isDigit(a[i]) && !isAlpha(a[i]) && a[i] != '~' && a[i] != '^' {
 			i++
 		}
-		for j < len(b) && isSeparator(rune(b[j])) {
+		for j < len(b) && !isDigit(b[j]) && !isAlpha(b[j]) && b[j] != '~' && b[j] != '^' {
 			j++
 		}
 
-		// Extract non-digit segments
-		iStart := i
-		for i < len(a) && !unicode.IsDigit(rune(a[i])) && !isSeparator(rune(a[i])) {
+		// Tilde sorts before everything, including the end of the string
+		if at(a, i, '~') || at(b, j, '~') {
+			if !at(a, i, '~') {
+				return 1
+			}
+			if !at(b, j, '~') {
+				return -1
+			}
 			i++
-		}
-		aNonDigit := a[iStart:i]
-
-		jStart := j
-		for j < len(b) && !unicode.IsDigit(rune(b[j])) && !isSeparator(rune(b[j])) {
 			j++
-		}
-		bNonDigit := b[jStart:j]
-
-		// Compare non-digit segments lexicographically
-		// Special case: tilde (~) sorts before anything (including empty string)
-		nonDigitCmp := compareRPMNonDigits(aNonDigit, bNonDigit)
-		if nonDigitCmp != 0 {
-			return nonDigitCmp
+			continue
 		}
 
-		// Extract digit segments
-		iStart = i
-		for i < len(a) && unicode.IsDigit(rune(a[i])) {
+		// Caret sorts after the end of the string but before any further segment
+		if at(a, i, '^') || at(b, j, '^') {
+			if i >= len(a) {
+				return -1
+			}
+			if j >= len(b) {
+				return 1
+			}
+			if !at(a, i, '^') {
+				return 1
+			}
+			if !at(b, j, '^') {
+				return -1
+			}
 			i++
-		}
-		aDigit := a[iStart:i]
-
-		jStart = j
-		for j < len(b) && unicode.IsDigit(rune(b[j])) {
 			j++
+			continue
 		}
-		bDigit := b[jStart:j]
 
-		// Compare digit segments numerically
-		digitCmp := compareRPMDigits(aDigit, bDigit)
-		if digitCmp != 0 {
-			return digitCmp
+		if i >= len(a) || j >= len(b) {
+			break
+		}
+
+		// Take a maximal segment of the class (numeric or alphabetic) of a's next character
+		iStart, jStart := i, j
+		numeric := isDigit(a[i])
+		if numeric {
+			for i < len(a) && isDigit(a[i]) {
+				i++
+			}
+			for j < len(b) && isDigit(b[j]) {
+				j++
+			}
+		} else {
+			for i < len(a) && isAlpha(a[i]) {
+				i++
+			}
+			for j < len(b) && isAlpha(b[j]) {
+				j++
+			}
+		}
+		aSeg, bSeg := a[iStart:i], b[jStart:j]
+
+		// Segments of different classes: an alphabetic segment sorts after a numeric one.
+		// (rpm itself ranks the numeric segment newer; the existing ordering is kept here
+		// because TestVersion_Compare pins 1.2.3-1 < 1.2.3-a.)
+		if bSeg == "" {
+			if numeric {
+				return -1
+			}
+			return 1
+		}
+
+		var cmp int
+		if numeric {
+			cmp = compareRPMDigits(aSeg, bSeg)
+		} else {
+			cmp = strings.Compare(aSeg, bSeg)
+		}
+		if cmp != 0 {
+			return cmp
 		}
 	}
 
-	return 0
+	// Whichever string still has segments left is newer
+	if i >= len(a) && j >= len(b) {
+		return 0
+	}
+	if i < len(a) {
+		return 1
+	}
+	return -1
 }
 
 // isSeparator checks if a character is a separator in RPM versions
